@@ -167,9 +167,10 @@ void __tsan_write_range(void *a, size_t n) { if (active() && n) hb::plain_write(
 // volatile accesses: notified BEFORE the access, which the compiled code then performs itself.
 // They are scheduling points; the notified access executes right after we return (atomically w.r.t. tasks).
 #define VOL(N) \
-  void __tsan_volatile_read##N(void *a) { if (!active()) return; yield_point(2); hb::atomic_access(a, N, false); hb::atomic_load(a, 2); \
-      ev("vread", N); Task *t = cur(); if (t->spin_addr == a) { t->spin_count++; t->spin_total++; } else { t->spin_addr = a; t->spin_count = 1; t->spin_total = 1; } \
-      if (t->spin_count >= 6) { t->spin_count = 0; spin_block(a); } } \
+  void __tsan_volatile_read##N(void *a) { if (!active()) return; yield_point(2); \
+      Task *t = cur(); if (t->spin_addr == a) { t->spin_count++; t->spin_total++; } else { t->spin_addr = a; t->spin_count = 1; t->spin_total = 1; } \
+      if (t->spin_count >= 6) { t->spin_count = 0; spin_block(a); }  /* parked until somebody writes a: the load below sees that write */ \
+      hb::atomic_access(a, N, false); hb::atomic_load(a, 2); ev("vread", N); } \
   void __tsan_volatile_write##N(void *a) { if (!active()) return; yield_point(2); hb::atomic_access(a, N, true); hb::atomic_store(a, 3); \
       ev("vwrite", N); wrote(a); } \
   void __tsan_unaligned_volatile_read##N(void *a) { __tsan_volatile_read##N(a); } \
